@@ -566,6 +566,51 @@ func (x *c08Run) step(i, sym int) {
 			// sometimes the transport holds the write (socket not writable) and a local AsyncClose is started
 			// before it completes: the Close goes after the message, exactly once
 			overlap := m.state == mActive && r.Chance(1, 4)
+			if !overlap && m.state == mActive && t.End == xport.EndWouldBlock && r.Chance(1, 4) {
+				// a read is parked, the write is held by the transport, the peer's Ping arrives: its Pong is written by
+				// the flush in flight once the message is out; while that Pong is on its way another message is
+				// submitted. Wire order: message, Pong, message - each exactly once.
+				m.flush()
+				rcalls := 0
+				var rerr error
+				var rf websocket.Frame
+				s.AsyncNextFrame(func(e error, g websocket.Frame) { rcalls++; rerr = e; rf = append(websocket.Frame(nil), g...) })
+				t.Pump()
+				if rcalls != 0 {
+					x.fail("read-with-nothing-available", "%s: AsyncNextFrame with nothing to read completed (err=%v)", label, rerr)
+					return
+				}
+				t.HoldWrites = true
+				s.AsyncWrite(payload, websocket.TypeText, func(e error) { calls++; err = e })
+				m.all = append(m.all, c08Owed{op, payload, "application frame"})
+				ping := x.mkFrames(evPing)
+				want := x.modelReadFrame(&ping[0], t.End)
+				t.Feed(ping[0].f.Encode())
+				t.Pump()
+				x.c.Logf("   (read parked, write held) a %d-byte Ping arrives: read callback %d times err=%v", len(ping[0].f.Payload), rcalls, rerr)
+				if rcalls != 1 {
+					x.fail("read-callback-count", "%s: AsyncNextFrame parked before a held write: callback invoked %d times when the Ping arrived", label, rcalls)
+					return
+				}
+				x.checkReadOutcome("AsyncNextFrame", label+" ping during a held write", want, &ping[0], rf, rerr)
+				t.ReleaseOneWrite() // the message is out; the flush in flight goes on with the Pong, which is held
+				t.Pump()
+				second := asciiBytes(r, r.Intn(30))
+				ycalls := 0
+				var yerr error
+				s.AsyncWrite(second, websocket.TypeText, func(e error) { ycalls++; yerr = e })
+				t.ReleaseWrites()
+				t.Pump()
+				if calls != 1 || ycalls != 1 || err != nil || yerr != nil {
+					x.fail("write-during-pong-in-flight", "%s: AsyncWrite, Ping read, AsyncWrite while the Pong is held: first write callback %d times (%v), second %d times (%v)", label, calls, err, ycalls, yerr)
+					return
+				}
+				m.all = append(m.all, c08Owed{op, second, "application frame"})
+				m.flush()
+				x.c.Count("writes_started_while_a_pong_is_in_flight", 1)
+				x.verify(name + "+ping+AsyncWrite-overlap " + label)
+				return
+			}
 			if overlap {
 				t.HoldWrites = true
 			}
